@@ -118,6 +118,18 @@ theorem slice_from {α : Type} (xs : List α) (a : Nat) : slice xs (a : Int) (le
 theorem slice_to {α : Type} (xs : List α) (b : Nat) : slice xs 0 (b : Int) = xs.take b := by
   simp [slice]
 
+/-- a `[]uintN` whose elements are given as naturals, as the translated functions see it -/
+def ints (xs : List Nat) : List Int := xs.map Int.ofNat
+
+theorem idx_ints (xs : List Nat) (i : Nat) (h : i < xs.length) : idx (ints xs) (i : Int) = some (xs[i] : Int) := by
+  unfold ints; rw [idx_natCast]; simp [h]
+theorem idx_ints_none (xs : List Nat) (i : Nat) (h : xs.length ≤ i) : idx (ints xs) (i : Int) = none := by
+  unfold ints; rw [idx_natCast]; simp [h]
+theorem len_ints (xs : List Nat) : len (ints xs) = (xs.length : Int) := by simp [len, ints]
+theorem getD_of_lt {α : Type} (xs : List α) (i : Nat) (d : α) (h : i < xs.length) : xs.getD i d = xs[i] := by
+  simp [List.getD_eq_getElem?_getD, h]
+theorem max_one_cast (q : Nat) : max (1 : Int) (q : Int) = ((max 1 q : Nat) : Int) := by omega
+
 /-! ## package `time` (trusted reading of the standard library) -/
 
 /-- `time.UnixMilli(ms)` as nanoseconds since the epoch -/
